@@ -8,7 +8,8 @@ Require Import Fggs.Proofs.SCC_ntgraph Fggs.Proofs.BigSum Fggs.Proofs.SP_trees F
                Fggs.Proofs.SP_code Fggs.Proofs.SP_rename Fggs.Proofs.SP_spe Fggs.Proofs.SP_driver
                Fggs.Proofs.SP_main Fggs.Proofs.SP_corollaries Fggs.Proofs.SP_examples Fggs.Proofs.SP_scc_glue.
 Require Import Fggs.Proofs.Presentation Fggs.Proofs.Presentation_perm Fggs.Proofs.Presentation_nodes
-               Fggs.Proofs.Presentation_dom Fggs.Proofs.Presentation_relabel Fggs.Proofs.Presentation_cor.
+               Fggs.Proofs.Presentation_dom Fggs.Proofs.Presentation_relabel Fggs.Proofs.Presentation_wf
+               Fggs.Proofs.Presentation_cor.
 
 (** node labels: 0 (2 values), 1 (3 values).
     edge labels: 0 = terminal f : (0,1); 1 = terminal g : (1); 2 = nonterminal X : (0); 3 = start S : ().
